@@ -406,6 +406,49 @@ def commitOk (s : PState) (mem : Nat) (late1 late2 : Completion) : Bool :=
   | (.flushed _ _ _, .ok) => true
   | _ => false
 
+/-! ## the commit point of a pipelined transaction -/
+
+/-- what happens to one Commit request for the primary key (store side + network):
+    `execLost`: the store executes it, the answer is lost (RPC error); `lost`: the request is lost before execution;
+    `keyErr`: the store answers with a definite key error (it answers `ok` if the primary is already committed);
+    `ok`: executed and answered -/
+inductive Attempt | execLost | lost | keyErr | ok
+  deriving DecidableEq, Repr
+
+/-- outcome of `commitMutations(primary)`: success, or an error together with the committer's undetermined flag
+    (`setUndeterminedErr` on an RPC error of the primary batch, cleared by any later answer) -/
+inductive CommitRes | ok | err (undetermined : Bool)
+  deriving DecidableEq, Repr
+
+/-- `actionCommit.handleSingleBatch` for the primary batch: the region request sender may retry after an RPC error (on
+    another replica, after a back-off) until an answer arrives or it gives up.  How many attempts it makes is the
+    replica selector's business (observed on the implementation); `attempts` lists what happened to each attempt made.
+    Returns (primary committed in the store?, result): when every attempt was lost the error comes back with the
+    undetermined flag set. -/
+def primaryCommit : List Attempt → Bool → Bool × CommitRes
+  | [], c => (c, .err true)
+  | a :: rest, c =>
+    match a with
+    | .execLost => primaryCommit rest true
+    | .lost => primaryCommit rest c
+    | .keyErr => if c then (c, .ok) else (c, .err false)
+    | .ok => (true, .ok)
+
+/-- what `KVTxn.Commit` tells the caller -/
+inductive Answer | nil | undetermined | other
+  deriving DecidableEq, Repr
+
+/-- `commitFlushedMutations` (as `commitTxn` of ordinary 2PC): an error of `commitMutations(primary)` is reported as
+    ErrResultUndetermined when the undetermined flag is set, and as it is otherwise -/
+def pipelinedAnswer : CommitRes → Answer
+  | .ok => .nil
+  | .err true => .undetermined
+  | .err false => .other
+
+/-- the caller must not be told a definite failure for a committed transaction, nor success for an uncommitted one -/
+def answerMatchesOutcome (a : Answer) (committed : Bool) : Bool :=
+  !(a == .other && committed) && !(a == .nil && !committed)
+
 /-! ## the range handed to the range task and the regions it visits -/
 
 /-- region layout = the split keys, strictly increasing; regions are [-∞,s₁), [s₁,s₂), …, [sₙ,+∞);
